@@ -311,6 +311,9 @@ def replay_history(cex, d):
             except IllFormed as e:
                 probs.append(f'{lg}: not well-formed: {e}')
                 continue
+            if not (den['origin'] <= den['example_k'] <= den['origin'] + n - 1):
+                probs.append(f'{lg}: the example statement reads subarray {den["example_k"]}, which does not exist '
+                             f'({n} subarrays, index origin {den["origin"]})')
             if den['iden'] is not None:
                 try:
                     al = ALANG.get(lg, lg)
@@ -386,6 +389,9 @@ def replay_ragged_code(cex, d):
                 ek, (pos, sk) = den['example_k'], den['stated']
                 if ek != sk or not (den['origin'] <= ek <= den['origin'] + n - 1):
                     probs.append(f'{lg}: example statement index {ek} (stated k={sk}) with {n} subarrays')
+                    break
+                if {'first': 0, 'second': 1, 'third': 2}[pos] != ek - den['origin']:
+                    probs.append(f'{lg}: the example comment calls subarray index {ek} (index origin {den["origin"]}) the {pos} one')
                     break
             if lg == 'numpymemmap' and not probs:
                 ns = {}
